@@ -154,6 +154,8 @@ def run_cfg(chk, facts, cfg):
                     check_bounds(key, 'proportion::ci_z_normal', 'Wald(%s)' % kname, dec, NORMAL, kind)
             except (Unsupported, NotReal) as e:
                 chk.ob(key, 'E3 structure', method, None, 'undecided: %s' % e, method)
+    from ..effects import obligation as no_hidden_state
+    no_hidden_state(chk, PID, facts, sfx, 'the critical value is a function of (confidence, degrees of freedom) only: no cached / thread-local state on the way')
     chk.analysed['paths'] += pr.npaths
     chk.analysed['functions'] |= pr.fns
     chk.analysed['configs'].add(cfg)
